@@ -1,1 +1,136 @@
-def main : IO Unit := IO.println "stub"
+/-
+  Driver for C19 (dataset classes).  One JSON case per input line:
+
+    {"name": "C", "members": [[attr, spec], …], "o1": val, "o2": val}
+    spec ::= {"k":"const","v":val} | {"k":"opt","key":"A.X"[,"d":val]} | {"k":"ds","args":[{"key":…[,"d":val]},…]}
+    val  ::= null | true | false | int | "str" | {"l":[val,…]} | {"d":[[key,val],…]}   (dicts keep their order)
+
+  Members may come in any order: the driver sorts them by attribute name (code-point order, as
+  `dir(cls)` does).  Dotted keys are split at '.' here; reported keys are printed sorted by their
+  dotted string.  One JSON observation per line.
+-/
+import Lean.Data.Json
+import LabreaModel.DatasetClass
+open Lean Labrea Labrea.DatasetClass
+
+partial def decV (j : Json) : Except String V :=
+  match j with
+  | .null => .ok .none
+  | .bool b => .ok (.bool b)
+  | .num n => match j.getInt? with
+    | .ok i => .ok (.int i)
+    | .error e => .error s!"not an int: {n} {e}"
+  | .str s => .ok (.str s)
+  | .obj _ =>
+    match j.getObjVal? "l" with
+    | .ok (.arr xs) => do
+      let vs ← xs.toList.mapM decV
+      pure (.list vs)
+    | _ => match j.getObjVal? "d" with
+      | .ok (.arr kvs) => do
+        let ps ← kvs.toList.mapM fun kv => match kv with
+          | .arr #[.str k, v] => do pure (k, ← decV v)
+          | _ => .error "bad dict entry"
+        -- build with `ainsert`, as Python does: no duplicate keys
+        pure (.dict (ps.foldl (fun acc (k, v) => ainsert k v acc) []))
+      | _ => .error "bad object"
+  | .arr _ => .error "bare array"
+
+partial def encV : V → Json
+  | .none => .null
+  | .bool b => .bool b
+  | .int i => Json.num (JsonNumber.fromInt i)
+  | .str s => .str s
+  | .list xs => Json.mkObj [("l", .arr (xs.map encV).toArray)]
+  | .dict kvs => Json.mkObj [("d", .arr (kvs.map fun (k, v) => Json.arr #[.str k, encV v]).toArray)]
+  | _ => .str "<?>"
+
+def splitKey (s : String) : Path := s.splitOn "."
+
+def decOpt (j : Json) : Except String OptSpec := do
+  let key ← j.getObjValAs? String "key"
+  let d ← match j.getObjVal? "d" with
+    | .ok dj => do pure (some (← decV dj))
+    | .error _ => pure Option.none
+  pure ⟨splitKey key, d⟩
+
+def decSpec (j : Json) : Except String MemberSpec := do
+  let k ← j.getObjValAs? String "k"
+  match k with
+  | "const" => do pure (.const (← decV (← j.getObjVal? "v")))
+  | "opt" => do pure (.opt (← decOpt j))
+  | "ds" => do
+    let args ← j.getObjValAs? (Array Json) "args"
+    pure (.ds (← args.toList.mapM decOpt))
+  | _ => .error s!"unknown member kind {k}"
+
+def insertMember (m : String × MemberSpec) : List (String × MemberSpec) → List (String × MemberSpec)
+  | [] => [m]
+  | x :: xs => if m.1 < x.1 then m :: x :: xs else x :: insertMember m xs
+
+def sortMembers (ms : List (String × MemberSpec)) : List (String × MemberSpec) :=
+  ms.foldr insertMember []
+
+partial def errStr : Err → String
+  | .keyNotFound k => "KeyNotFoundError:" ++ dotted k
+  | .rawType => "RawTypeError"
+  | .rawKey k => "KeyError:" ++ dotted k
+  | .wrapped e => "EvaluationError<" ++ errStr e ++ ">"
+  | .other t => "Other:" ++ t
+
+def errJ (e : Err) : Json := Json.mkObj [("err", .str (errStr e))]
+
+def keysJ (r : Except Err (List Path)) : Json :=
+  match r with
+  | .ok K => .arr ((sortKeys K).map fun k => Json.str (dotted k)).toArray
+  | .error e => errJ e
+
+def instJ (r : Except Err Inst) : Json :=
+  match r with
+  | .error e => errJ e
+  | .ok i => Json.mkObj [
+      ("attrs", .arr (i.attrs.map fun (n, a) => Json.arr #[.str n, match a with
+        | .val v => encV v
+        | .unevaluated => Json.mkObj [("unevaluated", .bool true)]]).toArray),
+      ("repr", .str (reprInst i))]
+
+def runCase (line : String) : Except String Json := do
+  let j ← Json.parse line
+  let name ← j.getObjValAs? String "name"
+  let msJ ← j.getObjValAs? (Array Json) "members"
+  let ms ← msJ.toList.mapM fun m => match m with
+    | .arr #[.str n, s] => do pure (n, ← decSpec s)
+    | _ => .error "bad member"
+  let o1 ← decV (← j.getObjVal? "o1")
+  let o2 ← decV (← j.getObjVal? "o2")
+  let c := concreteClass name (sortMembers ms)
+  let twin := concreteClass (name ++ "Twin") (sortMembers ms)
+  let i1 := instantiate c o1
+  let i2 := instantiate c o2
+  let eq : Json := match i1, i2 with
+    | .ok a, .ok b => .bool (instEq a b)
+    | _, _ => .null
+  let xeq : Json := match i1, instantiate twin o1 with
+    | .ok a, .ok b => .bool (instEq a b)
+    | _, _ => .null
+  let val (o : V) : Json := match classValidate c o with
+    | .ok _ => .str "ok"
+    | .error e => errJ e
+  pure (Json.mkObj [
+    ("i1", instJ i1), ("i2", instJ i2), ("eq", eq), ("xeq", xeq),
+    ("keys1", keysJ (classKeys c o1)), ("keys2", keysJ (classKeys c o2)),
+    ("explain1", keysJ (classExplain c o1)), ("explain2", keysJ (classExplain c o2)),
+    ("validate1", val o1), ("validate2", val o2)])
+
+partial def loop (h : IO.FS.Stream) (out : IO.FS.Stream) : IO Unit := do
+  let line ← h.getLine
+  if line.isEmpty then return
+  let l := line.trimAscii.toString
+  if !l.isEmpty then
+    match runCase l with
+    | .ok j => out.putStrLn j.compress
+    | .error e => out.putStrLn (Json.mkObj [("driver_error", .str e)]).compress
+  loop h out
+
+def main : IO Unit := do
+  loop (← IO.getStdin) (← IO.getStdout)
